@@ -39,4 +39,9 @@ package traffic
 //@   ensures only-registered-issuer: result == nil ==> cheque.Cheque.Beneficiary == registered(ref(s.addressBook), peer)
 //@   ensures only-addressed-to-us: result == nil ==> cheque.Cheque.Recipient == s.chainAddress
 //@   ensures credited-to-issuer: result == nil ==> trafficOf(s, registered(ref(s.addressBook), peer)) != nil && trafficOf(s, registered(ref(s.addressBook), peer)).transferChequeTraffic == cheque.Cheque.CumulativePayout
+//@   let reg = registered(ref(s.addressBook), peer)
+//@   let rec0 = trafficOf(s, registered(ref(s.addressBook), peer))
+//@   let credit0 = trafficOf(s, registered(ref(s.addressBook), peer)).transferChequeTraffic
+//@   let amount0 = bigval(trafficOf(s, registered(ref(s.addressBook), peer)).transferChequeTraffic)
+//@   ensures rejected-not-credited: result != nil && rec0 != nil ==> trafficOf(s, reg) == rec0 && rec0.transferChequeTraffic == credit0 && bigval(credit0) == amount0
 //@   callassert ChequeStore.ReceiveCheque from-registered-issuer: cheque.Cheque.Beneficiary == chainAddress && cheque.Cheque.Recipient == s.chainAddress
